@@ -25,6 +25,7 @@ CONSTANTS
   MaxSteps = 6
   RationalOnly = TRUE
   Twins = TRUE
+  SetOnce = FALSE
   Chain = FALSE
   NeedDt = FALSE
   BindLeaves = TRUE
